@@ -53,6 +53,29 @@ D2Matrix(m) == [i \in DOMAIN m |-> [j \in DOMAIN m |-> D2(m[i].p, m[j].p)]]
 BoxMin(m) == [k \in Ix |-> CHOOSE x \in {m[i].p[k] : i \in DOMAIN m} : \A y \in {m[i].p[k] : i \in DOMAIN m} : x <= y]
 BoxMax(m) == [k \in Ix |-> CHOOSE x \in {m[i].p[k] : i \in DOMAIN m} : \A y \in {m[i].p[k] : i \in DOMAIN m} : x >= y]
 FormulaOfMol(m) == Formula([i \in DOMAIN m |-> m[i].z])
+(* ---- bonding (guess_bonds, unique_bonds, connected_fragments) ------------------------------ *)
+(* two atoms are bonded when closer than the sum of their covalent radii + 0.4 A.  Radii held here in 0.01 A for the elements
+   the histories use; a guard band of 0.08 A around the threshold is left undecided (the library's table may differ in the last
+   digit).  Positions are in 1/8 A:  d < T  <=>  64 * 10000 * d2 < (8 T100)^2 ... compared as  10000 d2 < 64 T100^2 / ... *)
+CovR100 == (1 :> 23 @@ 6 :> 68 @@ 7 :> 68 @@ 8 :> 68 @@ 9 :> 64 @@ 16 :> 102 @@ 17 :> 99)
+BondBand100 == 8
+BondClass(m, i, j) ==
+  LET T == CovR100[m[i].z] + CovR100[m[j].z] + 40
+      d2 == D2(m[i].p, m[j].p)                         \* in (1/8 A)^2:  d_A^2 = d2 / 64
+  IN IF d2 = 0 THEN "no"
+     ELSE IF 10000 * d2 < 64 * (T - BondBand100) * (T - BondBand100) THEN "yes"
+     ELSE IF 10000 * d2 > 64 * (T + BondBand100) * (T + BondBand100) THEN "no" ELSE "unsure"
+BondDomain(m) == \A i \in DOMAIN m : m[i].z \in DOMAIN CovR100
+Decided(m) == \A i \in DOMAIN m : \A j \in DOMAIN m : i < j => BondClass(m, i, j) # "unsure"
+BondSet(m) == {<<i, j>> \in (DOMAIN m) \X (DOMAIN m) : i < j /\ BondClass(m, i, j) = "yes"}
+(* obs: set of pairs <<i, j>>, i < j *)
+BondsOK(m, obs) == \A i \in DOMAIN m : \A j \in DOMAIN m : i < j =>
+                     /\ (BondClass(m, i, j) = "yes" => <<i, j>> \in obs)
+                     /\ (BondClass(m, i, j) = "no" => <<i, j>> \notin obs)
+RECURSIVE ReachFrom(_, _, _)
+ReachFrom(m, B, S) == LET nxt == S \cup {j \in DOMAIN m : \E i \in S : <<i, j>> \in B \/ <<j, i>> \in B}
+                      IN IF nxt = S THEN S ELSE ReachFrom(m, B, nxt)
+Fragments(m) == {ReachFrom(m, BondSet(m), {i}) : i \in DOMAIN m}
 (* a rigid motion leaves every interatomic distance as it was *)
 SameShape(m1, m2) == Len(m1) = Len(m2) /\ D2Matrix(m1) = D2Matrix(m2) /\ [i \in DOMAIN m1 |-> m1[i].z] = [i \in DOMAIN m2 |-> m2[i].z]
 =============================================================================
